@@ -127,6 +127,8 @@ Definition encode_multi (order : list bytes) (ts : list term) : hres :=
   | [] => match enc_terms_c [] ts with EOk b => HOk (tag_version :: b) | EErr e => HErr e end
   | _ =>
     if 255 <? len order then HTooManyAtoms (len order) else
+    (* an entry's length field is one byte, or two with LongAtoms (fix commit 3fde240: a longer atom is an error) *)
+    if existsb (fun a => 65535 <? len a) order then HErr EAtomTooLarge else
     let n := length order in
     let long := existsb (fun a => 255 <? len a) order in
     let entries := concat (map (fun ia => (fst ia mod 256) ::
